@@ -939,6 +939,11 @@ def numeric_operands():
     ops += [bytes.fromhex(h) for h in ("80", "0080", "000080", "00000080", "0000000080", "00", "0000", "0100", "0180",
                                         "7f00", "ff00", "ff80", "ffff00", "01000000", "0100000000", "ffffffff",
                                         "ffffffff7f", "ffffffffff", "000000000000", "010000000000", "8000", "0081")]
+    # truthiness of LONG items (CastToBool has no length limit): negative zero, zero and near-misses of 6..520 bytes
+    # (seed C03-d1 took a shortcut for items longer than 5 bytes)
+    for n in (6, 7, 8, 9, 20, 32, 33, 65, 75, 76, 255, 256, 520):
+        ops += [b"\0" * (n - 1) + b"\x80", b"\0" * n, b"\0" * (n - 1) + b"\x81", b"\0" * (n - 1) + b"\x01",
+                b"\x01" + b"\0" * (n - 2) + b"\x80", b"\0" * (n - 2) + b"\x80\x00", b"\x80" + b"\0" * (n - 1)]
     seen, out = set(), []
     for o in ops:
         if o not in seen:
@@ -1158,7 +1163,7 @@ def numeric_sweep(rng, tier):
                     if op in (0x63, 0x64):
                         yield EvalCase(fl | FL["MINIMALIF"], "W", script, base + [d], tx, 0, 0, "num1w/%02x" % op)
                         yield EvalCase(fl | FL["MINIMALIF"], "B", script, base + [d], tx, 0, 0, "num1b/%02x" % op)
-    small = [d for d in NUM_OPERANDS if len(d) <= 5][::2] if tier == "quick" else NUM_OPERANDS
+    small = [d for d in NUM_OPERANDS if len(d) <= 5][::2] if tier == "quick" else [d for d in NUM_OPERANDS if len(d) <= 9]
     for op in BINARY:
         for a in small:
             for b in small:
